@@ -240,11 +240,33 @@ def run(prog, chk):
     for st_ in q.stores(rt):
         if q.no_casts(rt.r(st_.lhs)) == "this->token.value" and st_.rhs is not None:
             rn = rt.nodes[rt.strip(st_.rhs)]
-            if rn.get("t") == "int" or (rn["k"] == "DeclRefExpr" and rn["ref"].get("t") == "int"):
+            ty_ = lambda t_: (t_ or "").replace("const ", "").strip()
+            if ty_(rn.get("t")) in ("int", "unsigned int", "short") or (rn["k"] == "DeclRefExpr" and ty_(rn["ref"].get("t")) in ("int", "unsigned int", "short")):
                 ints.append(st_)
     for st_ in ints:
         atoms = fin.dominating_atoms(rt, rt.node_pos(st_.node))
-        okfit = any(a[0] != "case" and a[1] and re.search(r"\(resultInt == result\)|\(result == resultInt\)", q.no_casts(fin.key(rt, a[0]))) for a in atoms)
+        # the stored int X is the narrowing of a wider value W (`int X = (int)W`); the dominating test must say X == W
+        defs_ = q.local_defs(rt)
+        rn = rt.nodes[rt.strip(st_.rhs)]
+        xt = wt = None
+        if rn["k"] == "DeclRefExpr" and rn["ref"].get("dk") == "local":
+            ini = q.single_def(rt, rn["ref"]["id"], defs_)
+            if ini is not None:
+                xt, wt = rn["ref"]["n"], q.no_casts(rt.r(ini))
+        okfit = False
+        for a in atoms:
+            if a[0] == "case" or xt is None:
+                continue
+            an = rt.strip(a[0])
+            for _ in range(4):      # a bool local that names the test
+                nn = rt.nodes[an]
+                ini = q.single_def(rt, nn["ref"]["id"], defs_) if nn["k"] == "DeclRefExpr" and nn["ref"].get("dk") == "local" else None
+                if ini is None:
+                    break
+                an = rt.strip(ini)
+            cn = fin._canon(rt, an, bool(a[1]))
+            if cn[0] != "val" and cn[1] == "==" and {cn[0], cn[2]} == {xt, wt} and xt != wt:
+                okfit = True
         if okfit:
             chk.ok("C15.g", rt, "int stored only when it equals the parsed 64-bit value", rt.where(st_.node), "dominating fit test", evals=2)
         else:
